@@ -180,7 +180,7 @@ def run_property(prop, tier, report):
     engines["documents"] = {"documents": len(wd[0]), "processes": len(wd), "mismatches": bad}
     total_lines += len(wd[0])
     # 3. every state of the graph models (sampled in the quick tier)
-    for lib in ["core", "ver", "shape"]:
+    for lib in ["core", "ver", "shape", "dup"]:
         cfg = graph.MODELS[(lib, tier)]
         p, st = tlc_cached(f"graph-{lib}-{tier}", "MC_Graph", cfg, workers=12, timeout=3600)
         f, s = detrun(lib, [p], fresh=2, every=5 if quick else 1)
